@@ -25,6 +25,7 @@ import (
 	"net"
 	"net/http"
 	"os"
+	"regexp"
 	"sort"
 	"strconv"
 	"strings"
@@ -259,6 +260,29 @@ func (e *Engine) runOnce(ops []string, res *report.Result) *report.Failure {
 	toxiproxy.VerifYield = func(string) {}
 	_, final := e.E4.Do(h, "GET", "/proxies", false, "-")
 	ports := e.boundPorts()
+	// ---- C06, under concurrency: a create that was refused (4xx) has left nothing behind - in
+	// particular no listener on the address it named that no enabled proxy of the registry owns
+	for _, c := range calls {
+		f := strings.SplitN(c.op, " ", 4)
+		if len(f) < 4 || f[0] != "POST" || strings.Trim(f[1], "/") != "proxies" || c.status < 400 || c.status >= 500 {
+			continue
+		}
+		m := listenPortRe.FindStringSubmatch(f[3])
+		if m == nil {
+			continue
+		}
+		bound := false
+		for _, p := range strings.Fields(ports) {
+			bound = bound || p == m[1]
+		}
+		owned := regexp.MustCompile(`\|[^|()]*:` + m[1] + `\|[^|()]*\|1\|`).MatchString(final)
+		if bound && !owned {
+			f6 := fail("oracle", "the create ["+c.op+"] was answered "+fmt.Sprint(c.status)+", yet port "+m[1]+" is bound afterwards and no enabled proxy of the registry listens on it: the refused request left a listener behind",
+				"port "+m[1]+" free", "bound; registry "+final, "e7:C06:refused-create-left-listener")
+			f6.Property = "C06"
+			return f6
+		}
+	}
 	var obs []string
 	for _, c := range calls {
 		obs = append(obs, fmt.Sprintf("%d", c.status))
@@ -440,5 +464,7 @@ func shapeOf(calls []*call) string {
 	sort.Strings(ks)
 	return strings.Join(ks, "+")
 }
+
+var listenPortRe = regexp.MustCompile(`"listen":"[^"]*:(\d+)"`)
 
 var _ http.Handler
